@@ -19,7 +19,7 @@ RULE = (
     "coarse value class)."
 )
 ASSUMPTIONS = [
-    "values are in range for their type; strings are 7-bit ASCII; signalling NaNs are not generated",
+    "values are in range for their type; strings are valid UTF-8 text (ASCII control characters included); signalling NaNs are not generated",
     "enum values travel as their numeric enumerator value",
     "zero-length fixed arrays and zero-width types are not generated",
     "known finding serde-signed-min-decodes-positive is matched by its defect model (only signed leaves holding -2^(N-1) differ, and they come back as +2^(N-1))",
@@ -76,7 +76,9 @@ def run(run):
             continue
         run.count("schemas_parsed")
         fcp = res.unwrap()
-        for name, v, sig in cases:
+        for ci, (name, v, sig) in enumerate(cases):
+            if ci % 5 == 2:
+                CC.provoke_faults(run, fcp, sch, name, v, ci)
             check_case(run, fcp, sch, name, v, text, sig)
         del fcp, res
     CC.address_reuse_history(run, lambda fcp, sch, name, v, text, sig: check_case(run, fcp, sch, name, v, text, sig), run.pick(120, 1200))
